@@ -209,6 +209,20 @@ Theorem C09_int_exact_in_f64 : forall z m e,
 Proof. exact f64_of_Z_exact. Qed.
 Print Assumptions C09_int_exact_in_f64.
 
+(* ... and of every Rational n/2^k (to_f64 is one correctly rounded division of two exactly
+   converted i32): Rational against any finite double, unconditionally *)
+Theorem C09_dyadic_exact_in_f64 : forall n k, in_i32 n = true -> 0 <= k <= 30 ->
+  exact_in_f64 (Rational n (2 ^ k)) = true.
+Proof. exact dyadic_exact_in_f64. Qed.
+Print Assumptions C09_dyadic_exact_in_f64.
+
+Theorem C09_cmp_dyadic_float : forall p n k r vr,
+  rwfb n (2 ^ k) = true -> 0 <= k -> f64_to_Q r = Some vr ->
+  num_partial_cmp p (Rational n (2 ^ k)) (Float r) = Ok (Some ((n # Z.to_pos (2 ^ k)) ?= vr)%Q) /\
+  num_partial_cmp p (Float r) (Rational n (2 ^ k)) = Ok (Some (vr ?= (n # Z.to_pos (2 ^ k)))%Q).
+Proof. exact cmp_dyadic_float. Qed.
+Print Assumptions C09_cmp_dyadic_float.
+
 (* == on all non-NaN numbers: decided by the values *)
 Theorem C09_eq_float_inf : forall p a b va vb,
   wfb a = true -> wfb b = true -> non_nan a = true -> non_nan b = true ->
@@ -290,7 +304,9 @@ Example C09_example_float :
   num_partial_cmp Release (Float (f64_of_bits 0x3fe8000000000000)) (Rational 3 4) = Ok (Some Eq) /\
   float_side_exact (Rational 1 3) (Float (f64_of_bits 0x3fd5555555555555)) = false /\
   nvalx (Float (f64_inf true)) = Some XNegInf /\
-  float_side_exact (Rational 1 3) (Fixnum (2 ^ 60 + 1)) = true.
+  float_side_exact (Rational 1 3) (Fixnum (2 ^ 60 + 1)) = true /\
+  rwfb (-5) (2 ^ 3) = true /\
+  num_partial_cmp Debug (Rational (-5) (2 ^ 3)) (Float (f64_of_bits 0xbfe4000000000000)) = Ok (Some Eq).
 Proof. repeat split; vm_compute; reflexivity. Qed.
 
 (* C09_full_outside_rounding: a chain across three representations satisfying all its
